@@ -9,6 +9,8 @@ import { refRender, makePool, evalData } from './ref_render.mjs'
 const REPO = process.env.GEV_REPO || '/repo'
 const { ProcGenWrapper } = await import(`${REPO}/glass-easel/src/tmpl/proc_gen_wrapper.ts`)
 
+const { GlassEaselTemplateEngine } = await import(`${REPO}/glass-easel/src/tmpl/index.ts`)
+
 // ---------------------------------------------------------------------------------------------
 // instantiate generated code on the stub DOM
 
@@ -450,6 +452,126 @@ const handlers = {
       if (m.length) break
     }
     return { steps, mism }
+  },
+
+  // C06, engine stage: the real template engine of tmpl/index.ts (update-path-tree construction from DataChange lists,
+  // binding-map dispatch for single changes) driven like component.ts drives it: initValues(D0), then per batch
+  // updateValues(Di, changes). The batch operations are applied to a copy of the data the way data_proxy.ts applies them
+  // (replace on a path, splice with index normalisation; a replace at an index past the end also reports the array's
+  // `length`). Oracle: a fresh instance created with Di.
+  engine(req) {
+    const pool = makePool()
+    let G
+    try { G = loadBundle(req.bundle) } catch (e) { return { error: 'bundle: ' + String(e && e.stack || e) } }
+    const mk = () => {
+      const eng = new GlassEaselTemplateEngine()
+      const tmpl = eng.create({ is: 'c', _$template: { content: G[req.entry], groupList: G, updateMode: req.mode || '' } }, { externalComponent: false })
+      const root = new stub.ShadowRoot()
+      const inst = tmpl.createInstance({}, () => root)
+      installRecorders(inst.procGenWrapper)
+      return { inst, root }
+    }
+    const clone = (v) => {
+      if (Array.isArray(v)) return v.map(clone)
+      if (v && typeof v === 'object' && (Object.getPrototypeOf(v) === Object.prototype || Object.getPrototypeOf(v) === null)) {
+        const o = {}
+        for (const k of Object.keys(v)) o[k] = clone(v[k])
+        return o
+      }
+      return v
+    }
+    const dupKeys = () => stub.warnings.some((w) => w.includes('keys are not unique'))
+    stub.warnings.length = 0
+    let data = evalData(req.data0, pool)
+    let nextId = 100
+    let cur
+    try { cur = mk(); cur.inst.initValues(data) } catch (e) { return { steps: [], createThrew: String(e && e.stack || e) } }
+    if (dupKeys()) return { steps: [], domainExit: 'non-unique-keys' }
+    const at = (d, path) => path.reduce((x, k) => (x == null ? undefined : x[k]), d)
+    const steps = []
+    for (let bi = 0; bi < req.batches.length; bi += 1) {
+      data = clone(data)
+      const changes = []
+      const labels = []
+      for (const op of req.batches[bi]) {
+        const TARGETS = [['a'], ['b'], ['c'], ['c', '#'], ['list'], ['list', '#'], ['list', '#', 'v'], ['o'], ['o', 'l'], ['o', 'l', '#'], ['o', 'n']]
+        const ARRAYS = [['c'], ['list'], ['o', 'l']]
+        const scalar = () => evalData(op.val, pool)
+        const scalars = () => (op.vals || []).map((s) => evalData(s, pool))
+        const item = (v) => ({ id: nextId++, v })
+        if (op.k === 'replace') {
+          const t = TARGETS[op.target % TARGETS.length]
+          const path = []
+          let ok = true
+          let pastEnd = null
+          for (const seg of t) {
+            if (seg === '#') {
+              const arr = at(data, path)
+              if (!Array.isArray(arr)) { ok = false; break }
+              // an index inside the array, or (last segment only) the one just past its end
+              const last = path.length === t.length - 1
+              const n = arr.length + (last ? 1 : 0)
+              if (n === 0) { ok = false; break }
+              const i = op.i % n
+              if (i === arr.length) pastEnd = path.concat('length')
+              path.push(i)
+            } else path.push(seg)
+          }
+          if (!ok) continue
+          let val
+          const key = t.join('.')
+          if (key === 'c' || key === 'o.l') val = scalars()
+          else if (key === 'list') {
+            const old = Array.isArray(data.list) ? data.list : []
+            // a new list: a permutation / subset of the old items, or all new items
+            if (op.j % 3 === 0) val = old.slice().reverse()
+            else if (op.j % 3 === 1) val = old.filter((_, i) => (op.i >> i) % 2 === 0).concat(scalars().map(item))
+            else val = scalars().map(item)
+          } else if (key === 'list.#') val = item(scalar())
+          else if (key === 'o') val = { l: scalars(), n: scalar() }
+          else val = scalar()
+          // the parent of the last segment exists by construction
+          const parent = at(data, path.slice(0, -1))
+          if (parent == null || typeof parent !== 'object') continue
+          parent[path[path.length - 1]] = val
+          if (pastEnd) changes.push([pastEnd, true, undefined, undefined])
+          changes.push([path, val, undefined, undefined])
+          labels.push('replace:' + key + (pastEnd ? ':past-end' : ''))
+        } else if (op.k === 'splice') {
+          const path = ARRAYS[op.target % ARRAYS.length]
+          const arr = at(data, path)
+          if (!Array.isArray(arr)) continue
+          let index = op.i % (arr.length + 2)
+          if (index > arr.length) index = op.j % 2 ? -1 : 100
+          const del = op.del
+          let inserts = scalars()
+          if (path[0] === 'list') inserts = inserts.map(item)
+          const norm = index >= 0 && index < arr.length ? index : arr.length
+          arr.splice(norm, del, ...inserts)
+          changes.push([path, inserts, norm, del || 0])
+          labels.push('splice:' + path.join('.') + (norm === 0 && inserts.length === 0 ? ':front-removal' : '') + (inserts.length && del ? ':replace' : inserts.length ? ':insert' : ':remove'))
+        }
+      }
+      if (changes.length === 0) { steps.push({ step: bi + 1, mismatches: [], labels: ['batch:empty'] }); continue }
+      labels.push(changes.length === 1 ? 'batch:single-change' : 'batch:multi-change')
+      let updThrew = null; let freshThrew = null; let fresh; let curDump
+      try { cur.inst.updateValues(data, changes); curDump = dumpRoot(cur.root) } catch (e) { updThrew = String(e && e.stack || e) }
+      try { const f = mk(); f.inst.initValues(data); fresh = dumpRoot(f.root) } catch (e) { freshThrew = String(e && e.stack || e) }
+      if (dupKeys()) { steps.push({ step: bi + 1, mismatches: [], domainExit: 'non-unique-keys', labels }); break }
+      const m = []
+      const describe = changes.map((c) => (c[3] === undefined ? 'replace ' + JSON.stringify(c[0]) : `splice ${JSON.stringify(c[0])} at ${c[2]} del ${c[3]} ins ${c[1].length}`)).join('; ')
+      if (updThrew !== null || freshThrew !== null) {
+        if ((updThrew === null) !== (freshThrew === null)) {
+          m.push({ where: '', ch: 'throw', name: '', expected: freshThrew === null ? '<returns>' : 'throws: ' + freshThrew.split('\n')[0], actual: updThrew === null ? '<returns>' : 'throws: ' + updThrew.split('\n').slice(0, 3).join(' | ') })
+        }
+        steps.push({ step: bi + 1, mismatches: m, labels, changes: describe })
+        break
+      }
+      cmpTrees(fresh, curDump, '', m, { paths: true })
+      steps.push({ step: bi + 1, mismatches: m.slice(0, 30), nodes: countNodes(curDump), labels, changes: describe, data: show(data) })
+      if (m.length) break
+    }
+    return { steps }
   },
 
   // C07: binding map
